@@ -1,3 +1,391 @@
 package sym
 
-func registerHashModels(ex *Exec) {}
+import (
+	"crypto"
+	"crypto/sha256"
+	"crypto/sha512"
+	"fmt"
+	"go/types"
+	"strings"
+
+	"golang.org/x/tools/go/ssa"
+)
+
+// Hash functions are uninterpreted: a digest is UF_<kind>_<shape>(input bytes), so two
+// digests are equal whenever their inputs are equal terms (functional determinism only).
+// With all-constant input SHA-256/512 are computed for real.
+
+type hashSeg struct {
+	B    []*Term
+	Blob *Term // opaque blob (sort Blob), if non-nil
+}
+
+type HashV struct {
+	Kind   string
+	OutLen int
+	Block  int
+	Key    []*Term
+	Keyed  bool
+	Segs   []hashSeg
+}
+
+func (h *HashV) Copy() Value {
+	n := *h
+	n.Segs = append([]hashSeg{}, h.Segs...)
+	return &n
+}
+
+func (h *HashV) Identical(o Value) bool {
+	x, ok := o.(*HashV)
+	if !ok || x.Kind != h.Kind || len(x.Segs) != len(h.Segs) || len(x.Key) != len(h.Key) {
+		return false
+	}
+	for i := range h.Key {
+		if h.Key[i] != x.Key[i] {
+			return false
+		}
+	}
+	for i := range h.Segs {
+		a, b := h.Segs[i], x.Segs[i]
+		if a.Blob != b.Blob || len(a.B) != len(b.B) {
+			return false
+		}
+		for j := range a.B {
+			if a.B[j] != b.B[j] {
+				return false
+			}
+		}
+	}
+	return true
+}
+
+func (h *HashV) Merge(c *Ctx, g *Term, other Value) (Value, bool) {
+	x, ok := other.(*HashV)
+	if !ok || x.Kind != h.Kind || len(x.Segs) != len(h.Segs) || len(x.Key) != len(h.Key) {
+		return nil, false
+	}
+	n := h.Copy().(*HashV)
+	n.Key = make([]*Term, len(h.Key))
+	for i := range h.Key {
+		n.Key[i] = c.Ite(g, h.Key[i], x.Key[i])
+	}
+	for i := range h.Segs {
+		a, b := h.Segs[i], x.Segs[i]
+		if a.Blob != b.Blob || len(a.B) != len(b.B) {
+			return nil, false
+		}
+		nb := make([]*Term, len(a.B))
+		for j := range a.B {
+			nb[j] = c.Ite(g, a.B[j], b.B[j])
+		}
+		n.Segs[i] = hashSeg{B: nb, Blob: a.Blob}
+	}
+	return n, true
+}
+
+var hashType = types.NewNamed(types.NewTypeName(0, nil, "verifModelHash", nil), types.NewStruct(nil, nil), nil)
+
+func (ex *Exec) newHash(s *State, kind string, outLen, block int, key []*Term, keyed bool) Value {
+	id := ex.newObject(s, &HashV{Kind: kind, OutLen: outLen, Block: block, Key: key, Keyed: keyed}, nil)
+	return IfaceV{T: types.NewPointer(hashType), V: Ptr{Obj: id}}
+}
+
+func sanitize(s string) string {
+	return strings.NewReplacer("/", "_", ".", "_", "-", "_", "*", "", "(", "", ")", "").Replace(s)
+}
+
+// digest builds the digest term (BV 8*OutLen) of the accumulated input.
+func (ex *Exec) digest(h *HashV) *Term {
+	c := ex.Ctx
+	// flatten: merge adjacent byte segments
+	var args []*Term
+	var shape []string
+	var cur []*Term
+	allConst := !h.Keyed
+	flush := func() {
+		if len(cur) > 0 {
+			args = append(args, c.Concat(cur...))
+			shape = append(shape, fmt.Sprint(len(cur)))
+			cur = nil
+		}
+	}
+	if h.Keyed {
+		if len(h.Key) > 0 {
+			args = append(args, c.Concat(h.Key...))
+		}
+		shape = append(shape, fmt.Sprintf("k%d", len(h.Key)))
+	}
+	for _, sg := range h.Segs {
+		if sg.Blob != nil {
+			flush()
+			args = append(args, sg.Blob)
+			shape = append(shape, "b")
+			allConst = false
+			continue
+		}
+		for _, b := range sg.B {
+			if !b.IsConst() {
+				allConst = false
+			}
+		}
+		cur = append(cur, sg.B...)
+	}
+	if allConst && (h.Kind == "sha256" || h.Kind == "sha512") {
+		bs := make([]byte, len(cur))
+		for i, b := range cur {
+			bs[i] = byte(b.U)
+		}
+		var d []byte
+		if h.Kind == "sha256" {
+			x := sha256.Sum256(bs)
+			d = x[:]
+		} else {
+			x := sha512.Sum512(bs)
+			d = x[:]
+		}
+		out := make([]*Term, len(d))
+		for i := range d {
+			out[i] = c.BV(8, uint64(d[i]))
+		}
+		return c.Concat(out...)
+	}
+	flush()
+	name := fmt.Sprintf("H_%s_%s", sanitize(h.Kind), strings.Join(shape, "_"))
+	return c.App(name, SBV(8*h.OutLen), args...)
+}
+
+func (ex *Exec) digestBytes(h *HashV) []*Term {
+	d := ex.digest(h)
+	out := make([]*Term, h.OutLen)
+	for i := 0; i < h.OutLen; i++ {
+		hi := 8*(h.OutLen-i) - 1
+		out[i] = ex.Ctx.Extract(d, hi, hi-7)
+	}
+	return out
+}
+
+func (ex *Exec) hashObj(s *State, v Value, write bool) (*HashV, error) {
+	p, ok := v.(Ptr)
+	if !ok || p.Obj == 0 {
+		return nil, unsupported("hash receiver %T", v)
+	}
+	var o *Object
+	if write {
+		o = ex.writable(s, p.Obj)
+	} else {
+		o = s.Heap[p.Obj]
+	}
+	h, ok := o.V.(*HashV)
+	if !ok {
+		return nil, unsupported("hash receiver object %T", o.V)
+	}
+	return h, nil
+}
+
+func (ex *Exec) bytesArg(s *State, v Value) (hashSeg, error) {
+	switch x := v.(type) {
+	case SliceV:
+		if x.Obj != 0 {
+			if ob, ok := s.Heap[x.Obj].V.(*OpaqueBlob); ok {
+				return hashSeg{Blob: ob.T}, nil
+			}
+		}
+		bs, err := ex.sliceBytes(s, x)
+		return hashSeg{B: bs}, err
+	case StringV:
+		return hashSeg{B: x.B}, nil
+	}
+	return hashSeg{}, unsupported("hash input %T", v)
+}
+
+// OpaqueBlob: a byte string of unknown length and content that the code may only pass on.
+type OpaqueBlob struct{ T *Term }
+
+func (o *OpaqueBlob) Copy() Value { return o }
+func (o *OpaqueBlob) Identical(v Value) bool {
+	x, ok := v.(*OpaqueBlob)
+	return ok && x.T == o.T
+}
+
+// hashMethod dispatches a method call on a modelled hash.Hash.
+func (ex *Exec) hashMethod(s *State, name string, args []Value) (Value, *Fork, error) {
+	c := ex.Ctx
+	switch name {
+	case "Write":
+		h, err := ex.hashObj(s, args[0], true)
+		if err != nil {
+			return nil, nil, err
+		}
+		sg, err := ex.bytesArg(s, args[1])
+		if err != nil {
+			return nil, nil, err
+		}
+		h.Segs = append(h.Segs, sg)
+		n := c.BV(64, uint64(len(sg.B)))
+		return TupleV{n, IfaceV{}}, nil, nil
+	case "Sum":
+		h, err := ex.hashObj(s, args[0], false)
+		if err != nil {
+			return nil, nil, err
+		}
+		d := ex.digestBytes(h)
+		vals := make([]Value, len(d))
+		for i := range d {
+			vals[i] = d[i]
+		}
+		pre, _ := args[1].(SliceV)
+		r, err := ex.appendElems(s, pre, vals, types.Typ[types.Uint8])
+		return r, nil, err
+	case "Reset":
+		h, err := ex.hashObj(s, args[0], true)
+		if err != nil {
+			return nil, nil, err
+		}
+		h.Segs = nil
+		return nil, nil, nil
+	case "Size":
+		h, err := ex.hashObj(s, args[0], false)
+		if err != nil {
+			return nil, nil, err
+		}
+		return c.BV(64, uint64(h.OutLen)), nil, nil
+	case "BlockSize":
+		h, err := ex.hashObj(s, args[0], false)
+		if err != nil {
+			return nil, nil, err
+		}
+		return c.BV(64, uint64(h.Block)), nil, nil
+	}
+	return nil, nil, unsupported("hash method %s", name)
+}
+
+func (ex *Exec) sumArray(s *State, kind string, outLen int, in Value) (Value, error) {
+	sg, err := ex.bytesArg(s, in)
+	if err != nil {
+		return nil, err
+	}
+	h := &HashV{Kind: kind, OutLen: outLen, Segs: []hashSeg{sg}}
+	d := ex.digestBytes(h)
+	av := &ArrayV{E: make([]Value, outLen)}
+	for i := range d {
+		av.E[i] = d[i]
+	}
+	return av, nil
+}
+
+func registerHashModels(ex *Exec) {
+	m := ex.Models
+	m["crypto/sha256.New"] = func(ex *Exec, s *State, cc *ssa.CallCommon, a []Value) (Value, *Fork, error) {
+		return ex.newHash(s, "sha256", 32, 64, nil, false), nil, nil
+	}
+	m["crypto/sha512.New"] = func(ex *Exec, s *State, cc *ssa.CallCommon, a []Value) (Value, *Fork, error) {
+		return ex.newHash(s, "sha512", 64, 128, nil, false), nil, nil
+	}
+	m["golang.org/x/crypto/ripemd160.New"] = func(ex *Exec, s *State, cc *ssa.CallCommon, a []Value) (Value, *Fork, error) {
+		return ex.newHash(s, "ripemd160", 20, 64, nil, false), nil, nil
+	}
+	m["crypto/sha256.Sum256"] = func(ex *Exec, s *State, cc *ssa.CallCommon, a []Value) (Value, *Fork, error) {
+		v, err := ex.sumArray(s, "sha256", 32, a[0])
+		return v, nil, err
+	}
+	m["crypto/sha512.Sum512"] = func(ex *Exec, s *State, cc *ssa.CallCommon, a []Value) (Value, *Fork, error) {
+		v, err := ex.sumArray(s, "sha512", 64, a[0])
+		return v, nil, err
+	}
+	m["golang.org/x/crypto/blake2b.Sum256"] = func(ex *Exec, s *State, cc *ssa.CallCommon, a []Value) (Value, *Fork, error) {
+		v, err := ex.sumArray(s, "blake2b256", 32, a[0])
+		return v, nil, err
+	}
+	blakeNew := func(kind string, out int) ModelFn {
+		return func(ex *Exec, s *State, cc *ssa.CallCommon, a []Value) (Value, *Fork, error) {
+			var key []*Term
+			keyed := false
+			if sl, ok := a[len(a)-1].(SliceV); ok && sl.Len > 0 {
+				k, err := ex.sliceBytes(s, sl)
+				if err != nil {
+					return nil, nil, err
+				}
+				key, keyed = k, true
+			}
+			return TupleV{ex.newHash(s, kind, out, 128, key, keyed), IfaceV{}}, nil, nil
+		}
+	}
+	m["golang.org/x/crypto/blake2b.New256"] = blakeNew("blake2b256", 32)
+	m["golang.org/x/crypto/blake2b.New512"] = blakeNew("blake2b512", 64)
+	m["golang.org/x/crypto/blake2b.New"] = func(ex *Exec, s *State, cc *ssa.CallCommon, a []Value) (Value, *Fork, error) {
+		sz := a[0].(*Term)
+		if !sz.IsConst() {
+			return nil, nil, unsupported("blake2b.New with symbolic size")
+		}
+		return blakeNew(fmt.Sprintf("blake2b%d", sz.U*8), int(sz.U))(ex, s, cc, a)
+	}
+	m["(crypto.Hash).New"] = func(ex *Exec, s *State, cc *ssa.CallCommon, a []Value) (Value, *Fork, error) {
+		h := a[0].(*Term)
+		if !h.IsConst() {
+			return nil, nil, unsupported("crypto.Hash.New on symbolic hash id")
+		}
+		ch := crypto.Hash(h.U)
+		if ch == 0 || ch >= 20 {
+			return nil, nil, &goPanic{"crypto: requested hash function is unavailable"}
+		}
+		return ex.newHash(s, fmt.Sprintf("cryptohash%d", h.U), ch.Size(), 64, nil, false), nil, nil
+	}
+	m["(crypto.Hash).Size"] = func(ex *Exec, s *State, cc *ssa.CallCommon, a []Value) (Value, *Fork, error) {
+		h := a[0].(*Term)
+		if !h.IsConst() || h.U == 0 || h.U >= 20 {
+			return nil, nil, unsupported("crypto.Hash.Size on symbolic/unknown hash id")
+		}
+		return ex.Ctx.BV(64, uint64(crypto.Hash(h.U).Size())), nil, nil
+	}
+	m["(crypto.Hash).Available"] = func(ex *Exec, s *State, cc *ssa.CallCommon, a []Value) (Value, *Fork, error) {
+		return ex.Ctx.True(), nil, nil
+	}
+	m["crypto/hmac.New"] = func(ex *Exec, s *State, cc *ssa.CallCommon, a []Value) (Value, *Fork, error) {
+		f, ok := a[0].(*FuncV)
+		if !ok || f == nil || f.Fn == nil {
+			return nil, nil, unsupported("hmac.New with non-static hash constructor")
+		}
+		kind, out := "", 0
+		switch f.Fn.String() {
+		case "crypto/sha512.New":
+			kind, out = "hmac_sha512", 64
+		case "crypto/sha256.New":
+			kind, out = "hmac_sha256", 32
+		default:
+			return nil, nil, unsupported("hmac.New over %s", f.Fn)
+		}
+		key, err := ex.sliceBytes(s, a[1].(SliceV))
+		if err != nil {
+			return nil, nil, err
+		}
+		return ex.newHash(s, kind, out, 128, key, true), nil, nil
+	}
+	m["golang.org/x/crypto/pbkdf2.Key"] = func(ex *Exec, s *State, cc *ssa.CallCommon, a []Value) (Value, *Fork, error) {
+		// Key(password, salt []byte, iter, keyLen int, h func() hash.Hash) []byte
+		pw, err := ex.bytesArg(s, a[0])
+		if err != nil {
+			return nil, nil, err
+		}
+		salt, err := ex.bytesArg(s, a[1])
+		if err != nil {
+			return nil, nil, err
+		}
+		it, kl := a[2].(*Term), a[3].(*Term)
+		f, _ := a[4].(*FuncV)
+		if !kl.IsConst() || f == nil || f.Fn == nil {
+			return nil, nil, unsupported("pbkdf2.Key with symbolic key length or dynamic hash")
+		}
+		c := ex.Ctx
+		h := &HashV{Kind: "pbkdf2_" + sanitize(f.Fn.String()), OutLen: int(kl.U), Segs: []hashSeg{}}
+		// encode (iter, |pw|) as leading bytes so that the UF depends on them, then pw and salt as separate args via blobs/segments
+		itb := make([]*Term, 8)
+		for i := 0; i < 8; i++ {
+			itb[i] = c.Extract(it, 63-8*i, 56-8*i)
+		}
+		h.Keyed = true
+		h.Key = itb
+		h.Segs = append(h.Segs, pw, hashSeg{Blob: c.Var("sep!pbkdf2", Sort{K: KU, Name: "Blob"})}, salt)
+		d := ex.digestBytes(h)
+		return ex.newByteSlice(s, d), nil, nil
+	}
+}
